@@ -456,7 +456,11 @@ func runHist(args []string) error {
 func history(run, steps, conc int, seed int64) ([]map[string]any, error) {
 	rng := rand.New(rand.NewSource(seed))
 	initIDs := []int{101, 102}
-	text, rend := initialBoard(initIDs, 300+rng.Intn(3000))
+	text, rend0 := initialBoard(initIDs, 300+rng.Intn(3000))
+	rend := map[int][][]byte{}
+	for k, v := range rend0 {
+		rend[k] = [][]byte{v}
+	}
 	w, err := sim.NewWorld(sim.WorldOpts{Board: text, Agreement: "agreement"})
 	if err != nil {
 		return nil, err
@@ -478,19 +482,28 @@ func history(run, steps, conc int, seed int64) ([]map[string]any, error) {
 	evs := []map[string]any{{"op": "world", "run": run, "store": "hist", "init": initIDs, "readers": []int{}, "posters": []int{}, "order": []int{}, "clients": n}}
 	next := 200
 	total := len(text)
+	var lastBody []byte
+	lastCi := 0
 	for s := 0; s < steps; s++ {
 		ci := rng.Intn(n)
 		c := clients[ci]
 		if rng.Intn(3) > 0 && total < 60000 {
-			next++
-			size := []int{0, 1, 10, 200, 1000, 5000}[rng.Intn(6)]
-			if total+size > 62000 {
-				size = 10
+			var body []byte
+			if lastBody != nil && rng.Intn(4) == 0 {
+				// the same user posts the very same text again (a repeated post is a post)
+				body, ci, c = lastBody, lastCi, clients[lastCi]
+			} else {
+				next++
+				size := []int{0, 1, 10, 200, 1000, 5000}[rng.Intn(6)]
+				if total+size > 62000 {
+					size = 10
+				}
+				body = []byte(fmt.Sprintf("<<P%d>>%s", next, bytes.Repeat([]byte{byte('A' + next%26)}, size)))
+				if rng.Intn(4) == 0 {
+					body = append(body, '\n', 'x')
+				}
 			}
-			body := []byte(fmt.Sprintf("<<P%d>>%s", next, bytes.Repeat([]byte{byte('A' + next%26)}, size)))
-			if rng.Intn(4) == 0 {
-				body = append(body, '\n', 'x')
-			}
+			lastBody, lastCi = body, ci
 			rep, err := c.Request(sim.TOldPostNews, sim.Fld(sim.FData, body))
 			if err != nil {
 				return nil, fmt.Errorf("post: %w", err)
@@ -513,12 +526,12 @@ func history(run, steps, conc int, seed int64) ([]map[string]any, error) {
 			}
 			disk, _ := os.ReadFile(filepath.Join(w.Config, "MessageBoard.txt"))
 			if rendered != nil {
-				rend[next] = rendered
+				rend[next] = append(rend[next], rendered)
 			}
 			ids := postsIn(disk)
 			total = len(disk)
 			ev := map[string]any{"op": "post", "run": run, "a": next, "c": ci + 1, "ok": rep.Err == 0, "announced": announced, "disk": ids,
-				"diskExact": bytes.Equal(disk, concat(rend, ids)), "name": sim.Ints([]byte(fmt.Sprintf("user%d", ci+1))),
+				"diskExact": bytes.Equal(disk, concatOcc(rend, ids)), "name": sim.Ints([]byte(fmt.Sprintf("user%d", ci+1))),
 				"body": sim.Ints(bytes.ReplaceAll(body, []byte("\n"), []byte("\r"))), "rendered": []int{}}
 			if len(rendered) <= 400 {
 				ev["rendered"] = sim.Ints(rendered)
@@ -532,7 +545,7 @@ func history(run, steps, conc int, seed int64) ([]map[string]any, error) {
 			d, _ := rep.Get(sim.FData)
 			ids := postsIn(d)
 			evs = append(evs, map[string]any{"op": "read", "run": run, "c": ci + 1, "ok": rep.Err == 0, "posts": ids, "len": len(d),
-				"exact": bytes.Equal(d, concat(rend, ids))})
+				"exact": bytes.Equal(d, concatOcc(rend, ids))})
 		}
 	}
 	// free-running phase: concurrent readers, posters and logins on the real processOutbox-less pump is not
@@ -585,17 +598,34 @@ func history(run, steps, conc int, seed int64) ([]map[string]any, error) {
 	for _, seg := range bytes.SplitAfter(disk, []byte("__________________________________________________________\r")) {
 		if ids := postsIn(seg); len(ids) == 1 {
 			if _, known := rend[ids[0]]; !known {
-				rend[ids[0]] = append([]byte(nil), seg...)
+				rend[ids[0]] = [][]byte{append([]byte(nil), seg...)}
 			}
 		}
 	}
 	final := postsIn(disk)
-	evs = append(evs, map[string]any{"op": "concstart", "run": run, "text": startText, "final": final, "finalExact": bytes.Equal(disk, concat(rend, final))})
+	evs = append(evs, map[string]any{"op": "concstart", "run": run, "text": startText, "final": final, "finalExact": bytes.Equal(disk, concatOcc(rend, final))})
 	for i, e := range cevs {
 		if e["op"] == "cread" {
-			e["exact"] = bytes.Equal(datas[i], concat(rend, e["posts"].([]int)))
+			e["exact"] = bytes.Equal(datas[i], concatOcc(rend, e["posts"].([]int)))
 		}
 		evs = append(evs, e)
 	}
 	return evs, nil
+}
+
+
+// concatOcc concatenates the renderings of the listed posts (newest first); a post id that occurs several times
+// (the same text posted again) uses its renderings newest first as well.
+func concatOcc(rend map[int][][]byte, ids []int) []byte {
+	seen := map[int]int{}
+	var b []byte
+	for _, id := range ids {
+		r := rend[id]
+		k := len(r) - 1 - seen[id]
+		seen[id]++
+		if k >= 0 && k < len(r) {
+			b = append(b, r[k]...)
+		}
+	}
+	return b
 }
